@@ -421,8 +421,16 @@ def register(reg):
       "_readd/_failed), each replayed on the real engine every run. Only differentially validated: that the model equals "
       "the engine (evaluated cells observed with engine.formula_tracer and through a counter formula, on histories and an "
       "exhaustive small scope, for every trigger column of every bundle) and that the Lean spec lies within the independent "
-      "Python reading of the property.",
-      "recalcDeps are plain data columns, formula columns over plain data columns, or the column itself; values of the "
+      "Python reading of the property. DIRECT ORACLE ONLY: that READERS of a trigger column do not change the outcome - "
+      "formula columns `$B` whose ids sort before / after the column (chains too), lookupRecords / lookupOne keyed on it from "
+      "the same and another table, a summary table grouped by it, all of which make the engine visit the column's node through "
+      "a nested _recompute_step(allow_evaluation=False) before its own evaluation: the model has no evaluation order, so for "
+      "such documents (80% of the histories, every configuration x reader kind of the small scope, 27 fixed reader witnesses) "
+      "the property's own clauses judge the real outcome (evaluated cells within [must, may]; an explicit value set by the "
+      "last user action is never recalculated and such a recalculation is never attributed to a recorded finding; every "
+      "reader agrees with the final trigger cells).",
+      "recalcDeps are plain data columns, formula columns over plain data columns, or the column itself (never a reader of a "
+      "trigger column); values of the "
       "column's type; tie skipped (oracle applied) for bundles with record edits after a schema change; six recorded findings "
       "(known_findings.json): supplied value on add overwritten, trimmed explicit value, exemptions cleared per user "
       "action, stale edges within a bundle, stale entry on re-added row id, entries surviving a failed bundle.",
